@@ -15,7 +15,7 @@ A case = {"lines": [...], "meta": {...}, "lexmap": {char: token name}, "sep": " 
 """
 import itertools
 import re
-import signal
+import signal, contextlib, io
 import sys
 
 from harness.core import enc_str, dec_str
@@ -234,17 +234,36 @@ def raw_lex(spec, text, as_lines=False):
     return out
 
 
-def enc_p(spec, text, start=None, as_lines=False):
-    """`p` = parse(text); `pl` = parse(text.split('\\n')) (list of lines); `ps X` = parse(text, start_symbol_name=X)"""
+def enc_p(spec, text, start=None, as_lines=False, flags=None):
+    """`p` = parse(text); `pl` = parse(text.split('\\n')) (list of lines); `ps X` = parse(text, start_symbol_name=X);
+    `px <flags> <X|->` = parse with keyword arguments: `d` debug=True, `c` do_cleanup=True (else False), `n` src_name
+    given, `l` list of lines, `-` none of them"""
+    if flags is not None:
+        as_lines = "l" in flags
     raw = raw_lex(spec, text, as_lines)
     assert raw is not None, "generator produced a text that does not lex: %r" % text
     head = ("pl" if as_lines else "p") if start is None else "ps %s" % _chk(start)
+    if flags is not None:
+        head = "px %s %s" % (flags or "-", "-" if start is None else _chk(start))
     return "%s %s %s" % (head, enc_str(text), ";".join("%s~%s" % (n, enc_str(v)) for n, v in raw) or "-")
+
+
+PARSE_OPS = ("p", "pl", "ps", "px")
 
 
 def dec_p(line):
     f = line.split()
-    return dec_str(f[2] if f[0] == "ps" else f[1])
+    return dec_str(f[3] if f[0] == "px" else (f[2] if f[0] == "ps" else f[1]))
+
+
+def p_info(line):
+    """-> (explicit start symbol | None, text given as list of lines, flags) of a parse request"""
+    f = line.split()
+    if f[0] == "px":
+        return (None if f[2] == "-" else f[2]), "l" in f[1], ("" if f[1] == "-" else f[1])
+    if f[0] == "ps":
+        return f[1], False, ""
+    return None, f[0] == "pl", ""
 
 
 def start_of(spec):
@@ -426,18 +445,46 @@ def stack_bound(parser, text):
     return (len(text) + 2) * (len(parser.prods_map) + len(parser.terminals) + 3)
 
 
-def parse_reply(parser, text, trace_budget=None, start=None, as_lines=False):
+class _Quiet:
+    """what `debug=True` and the observers report (stdout, logger `ak.llparser`) is captured, not shown"""
+
+    def __enter__(self):
+        import logging
+        self.log = logging.getLogger("ak.llparser")
+        self.h = logging.StreamHandler(io.StringIO())
+        self.old = (self.log.propagate, list(self.log.handlers))
+        self.log.handlers[:] = [self.h]
+        self.log.propagate = False
+        self.r = contextlib.redirect_stdout(io.StringIO())
+        self.r.__enter__()
+        return self
+
+    def __exit__(self, *a):
+        self.r.__exit__(*a)
+        self.log.propagate, self.log.handlers[:] = self.old[0], self.old[1]
+        return False
+
+
+def parse_reply(parser, text, trace_budget=None, start=None, as_lines=False, flags=""):
     old = signal.signal(signal.SIGALRM, _alarm)
     signal.setitimer(signal.ITIMER_REAL, 120.0 if trace_budget else 20.0)
     try:
         kw = {} if start is None else {"start_symbol_name": start}
+        kw["do_cleanup"] = "c" in flags
+        if "d" in flags:
+            kw["debug"] = True
+        if "n" in flags:
+            kw["src_name"] = "some file.txt"
         arg = text.split("\n") if as_lines else text
-        if trace_budget:
-            with LineBudget(trace_budget, stack_bound(parser, text)):
-                t = parser.parse(arg, do_cleanup=False, **kw)
-        else:
-            t = parser.parse(arg, do_cleanup=False, **kw)
+        with _Quiet():          # debug=True logs the steps
+            if trace_budget:
+                with LineBudget(trace_budget, stack_bound(parser, text)):
+                    t = parser.parse(arg, **kw)
+            else:
+                t = parser.parse(arg, **kw)
         signal.setitimer(signal.ITIMER_REAL, 0)
+        if "c" in flags:              # the cleaned-up result (any object) is not the subject: a result was returned
+            return "accepted"
         return "tree " + show_tree(t)
     except StackBoundExceeded:
         return "err StackBoundExceeded"
@@ -478,6 +525,34 @@ def diag_reply(parser, op):
     return "bad-op"
 
 
+OBSERVERS = ("obs-descr", "obs-gen", "obs-cleanuper", "obs-str", "obs-repr", "obs-amb", "obs-summary")
+
+
+def observe(parser, op):
+    """the observer methods of a parser object - they report, they must not change what later calls return"""
+    try:
+        with _Quiet():
+            if op == "obs-descr":
+                parser.print_detailed_descr()
+            elif op == "obs-gen":
+                list(parser._summary.gen_detailed_descr())
+            elif op == "obs-cleanuper":
+                list(parser.cleanuper.gen_detailed_descr())
+            elif op == "obs-str":
+                str(parser)
+            elif op == "obs-repr":
+                repr(parser)
+            elif op == "obs-amb":
+                parser.is_ambiguous()
+            elif op == "obs-summary":
+                str(parser._summary), repr(parser._summary)
+            else:
+                return "bad-op"
+        return "ok"
+    except Exception as e:
+        return "err " + type(e).__name__
+
+
 def impl(case, trace_budget=None, parse_budget=None):
     """trace_budget: line-event budget of the constructor; parse_budget: of one parse (with the stack bound).
     Every `g` creates a further parser object of the same process; `use k` goes back to the k-th one."""
@@ -498,20 +573,23 @@ def impl(case, trace_budget=None, parse_budget=None):
             k = int(line.split()[1])
             cur = k if k < len(slots) else None
             out.append("ok")
-        elif op in ("p", "pl", "ps"):
+        elif op in PARSE_OPS:
             if cur is None:
                 out.append("nogrammar")
             elif slots[cur][1]:           # one overrun per parser is enough evidence; do not burn the budget again
                 out.append("skipped-after-overrun")
             else:
+                st_, al_, fl_ = p_info(line)
                 rep = parse_reply(slots[cur][0], dec_p(line), parse_budget or trace_budget,
-                                  start=line.split()[1] if op == "ps" else None, as_lines=(op == "pl"))
+                                  start=st_, as_lines=al_, flags=fl_)
                 slots[cur][1] = rep in ("err BudgetExceeded", "err StackBoundExceeded")
                 out.append(rep)
         elif op == "amb":       # is_ambiguous() again, after the parses (the table must not have changed)
             out.append("nogrammar" if cur is None else "amb=%d" % (1 if slots[cur][0].is_ambiguous() else 0))
         elif op in DIAG_OPS:
             out.append("nogrammar" if cur is None else diag_reply(slots[cur][0], op))
+        elif op.startswith("obs"):
+            out.append("nogrammar" if cur is None else observe(slots[cur][0], op))
         elif op == "reset":
             slots, cur = [], None
             out.append("ok")
@@ -1300,23 +1378,32 @@ def _finish_case(lines, spec, var_name, texts, meta, lexmap):
 
 
 def make_case(spec, var_name, words, texts, meta, diags=("prods", "suffix", "table", "nullables", "first", "follow"),
-              lexmap=None, seqs=(), line_texts=()):
+              lexmap=None, seqs=(), line_texts=(), obs=(), kwcalls=()):
     """per smart value: construct, diagnostics, the parses (`line_texts`: given as a list of lines), then the call
     sequences `seqs` = [(X, text), ...]: parse(text, start_symbol_name=X) followed by a plain parse(text) on the same
-    parser object, then is_ambiguous() once more"""
+    parser object, then is_ambiguous() once more.
+    `obs` = [(position, observer op)]: observer methods called BETWEEN the parses (position = number of texts parsed
+    before it; the parses after it are the evidence that it changed nothing);
+    `kwcalls` = [(flags, X | None, text)]: parse with keyword arguments (debug, do_cleanup, src_name, start symbol)"""
     lines = []
     for smart in (True, False):
         lines.append(enc_g(spec, smart))
         lines.extend(diags)
-        for t in texts:
+        for i, t in enumerate(texts):
+            for pos, o in obs:
+                if pos == i:
+                    lines.append(o)
             lines.append(enc_p(spec, t))
         for t in line_texts:
             lines.append(enc_p(spec, t, as_lines=True))
+        for fl, x, t in kwcalls:
+            lines.append(enc_p(spec, t, start=x, flags=fl))
         for x, t in seqs:
             lines.append(enc_p(spec, t, start=x))
             lines.append(enc_p(spec, t))
         lines.append("amb")
-    return _finish_case(lines, spec, var_name, list(texts) + list(line_texts) + [t for _, t in seqs], meta, lexmap)
+    return _finish_case(lines, spec, var_name, list(texts) + list(line_texts) + [t for _, t in seqs] +
+                        [t for _, _, t in kwcalls], meta, lexmap)
 
 
 def make_multi_case(specs, var_name, texts_per_spec, meta, lexmap=None):
@@ -1395,6 +1482,24 @@ def gen_templates(rng, T, nts):
     elif r < 0.7:
         tk = rng.choice(tkeys)
         top = [[tk, start], []] if rng.random() < 0.6 else [[rng.choice(plain), tk, start], [rng.choice(T)]]
+    if rng.random() < 0.5:
+        # a (possibly empty) container / nullable symbol in the common prefix of NON-adjacent alternatives (they are not
+        # factorised together); the first one fails behind the prefix: roll-back across a completed template node
+        seqkeys = [k for k, td in tdefs if td["t"] == "seq"]
+        first = rng.choice(seqkeys) if (seqkeys and rng.random() < 0.6) else rng.choice(tkeys + tkeys + sorted(nullable))
+        pre = [first] + ([rng.choice(tkeys + T)] if rng.random() < 0.3 else [])
+        common = [rng.choice(T) for _ in range(rng.randint(0, 2))]
+        a1 = pre + common + [rng.choice(T) for _ in range(rng.randint(1, 2))]
+        a3 = pre + common + [rng.choice(T) for _ in range(rng.randint(1, 2))]
+        mid = [[rng.choice(T)] + [rng.choice(T + plain)] * rng.randint(0, 1)]
+        shape = [a1] + mid + [a3] + ([pre + [rng.choice(T)]] if rng.random() < 0.3 else [])
+        if rng.random() < 0.5:
+            top = shape + [a for a in top if rng.random() < 0.5]
+        else:
+            tgt = rng.choice(g)
+            tgt[1][:] = _dedupe(shape + [a for a in tgt[1] if a and rng.random() < 0.5])
+            if not any(tgt[0] in a for a in top):
+                top.append([tgt[0]])
     out = [[start, _dedupe(top)]] + tdefs + g
     if rng.random() < 0.4:
         rng.shuffle(out)
@@ -1561,7 +1666,23 @@ def gen_ll_cases(rng, n_grammars, maxlen, extra_long=0, rec_maxlen=2, malformed_
                 seqs.append(("Nokey", render(rng, var, rng.choice(words))))
             if seqs:
                 meta["seq"] = len(seqs)
-        yield make_case(spec, var_name, words, texts, meta, diags=diags, seqs=seqs, line_texts=line_texts)
+        obs, kwcalls = [], []
+        if ok and not rec:
+            if rng.random() < 0.35:      # observer methods between the parses: early, so that most parses come after them
+                for _ in range(rng.randint(1, 3)):
+                    obs.append((rng.choice([0, 0, 1, 2, rng.randint(0, max(0, len(texts) - 1))]), rng.choice(OBSERVERS)))
+                meta["observers"] = len(obs)
+            if rng.random() < 0.35:      # every combination of the documented keyword arguments of parse
+                keys = [k for k in user_grammar(spec)]
+                for _ in range(rng.randint(2, 6)):
+                    fl = "".join(c for c in "dcn" if rng.random() < 0.5)
+                    if "free" not in var and "spanlex" not in var and rng.random() < 0.15:
+                        fl += "l"
+                    x = rng.choice(keys) if (keys and rng.random() < 0.3) else None
+                    kwcalls.append((fl, x, rng.choice(texts)))
+                meta["kwcalls"] = len(kwcalls)
+        yield make_case(spec, var_name, words, texts, meta, diags=diags, seqs=seqs, line_texts=line_texts, obs=obs,
+                        kwcalls=kwcalls)
 
 
 def gen_layered_cases(rng, levels=(8, 16, 28, 40), per_level=1):
@@ -1842,6 +1963,10 @@ def tags(case, replies):
             yield "parse-from:" + (rep.split()[0] if not rep.startswith("err") else rep.replace(" ", ":"))
         elif op == "pl":
             yield "parse-lines:" + (rep.split()[0] if not rep.startswith("err") else rep.replace(" ", ":"))
+        elif op == "px":
+            yield "parse-kwargs:%s:%s" % (line.split()[1], rep.split()[0] if not rep.startswith("err") else rep.replace(" ", ":"))
+        elif op.startswith("obs"):
+            yield "observer:" + op
 
 
 def nontrivial(case, replies):
@@ -1851,7 +1976,7 @@ def nontrivial(case, replies):
 
 
 def observable(i, line):
-    return line.split()[0] in ("g", "p", "pl", "ps", "amb", "use", "reset")
+    return line.split()[0] in ("g", "p", "pl", "ps", "px", "amb", "use", "reset") or line.startswith("obs")
 
 
 C03_WITNESS = {"tok": [["SPACE", r"\s+"], ["X", "x"], ["Y", "y"], ["Z", "z"]], "syn": {}, "kw": [], "skip": None,
